@@ -419,6 +419,30 @@ def case_class_defaults(ctx, i, rng):
     compare(ctx, spec, outs, inputs, types, "channels")
 
 
+def case_once_only(ctx, i, rng):
+    """values that an earlier, more lenient Union member would convert again if it saw the already converted result
+    (a range read as a sequence, a UUID read as an int): every channel converts exactly once"""
+    reg = {t.extra: t for t in G.REGISTERED}
+    choices = [
+        (G.union_t([G.list_t(G.INT, "Sequence"), reg["range"]]), "range(5, 0, -1)"),
+        (G.union_t([G.RESTRICTED_NUM[1], reg["UUID"]]), "ed2d62d9-50ea-95fe-f035-5fbb22c01615"),
+        (G.list_t(G.union_t([G.RESTRICTED_NUM[0], reg["UUID"]])), [3, "ed2d62d9-50ea-95fe-f035-5fbb22c01615"]),
+        (G.union_t([G.list_t(G.STR), reg["range"]]), "range(2)"),
+    ]
+    picked = rng.sample(choices, 2)
+    spec = dict(args=[dict(name=n, t=t, default=P.MISSING, required=False) for n, (t, _) in zip(["u1", "grp.u2"], picked)], cfg=True, mode="yaml", env=False, prog="app", sub=None)
+    o = call(P.build, spec, env_prefix="APP")
+    if not o.accepted:
+        ctx.inconclusive(f"once-only parser not built: {o.brief()}")
+        return
+    inputs = {n: copy.deepcopy(v) for n, (_, v) in zip(["u1", "grp.u2"], picked)}
+    types = P.arg_types(spec)
+    outs = run_channels(ctx, spec, o.value, inputs, ctx.workdir, i, (), types=None)
+    ctx.evaluation(("c05-once-only", tuple(t.skel for t, _ in picked)))
+    ctx.count("st.values_a_lenient_member_would_convert_again")
+    compare(ctx, spec, outs, inputs, types, "channels")
+
+
 def run_shard(ctx):
     for k in list(os.environ):
         if k.startswith("APP_"):
@@ -428,5 +452,7 @@ def run_shard(ctx):
             case_modes(ctx, i, rng)
         elif i % 12 == 1:
             case_class_defaults(ctx, i, rng)
+        elif i % 24 == 4:
+            case_once_only(ctx, i, rng)
         else:
             case_channels(ctx, i, rng)
